@@ -108,7 +108,7 @@ pub fn gen(seed: u64, n: usize) -> Vec<Value> {
             }
             json!({"kind": "batched", "sizes": sizes, "sort": rng.random_bool(0.5), "shuffle": rng.random_bool(0.5),
                    "pf": rng.random_range(0..=4), "limit": limit,
-                   "ltype": if rng.random_bool(0.5) { "count" } else { "padded" }, "seed": rng.random::<u32>()})
+                   "ltype": if rng.random_bool(0.5) { "count" } else { "padded" }, "seed": if rng.random_bool(0.1) { 0 } else { rng.random::<u32>() }})
         })
         .collect()
 }
